@@ -433,6 +433,9 @@ func (r *report) validateTranslator(p *sym.Program, incomplete *[]string) (runs,
 	if r.opt.tier == "thorough" {
 		max = 24
 	}
+	if r.grid.validateN > max {
+		max = r.grid.validateN
+	}
 	step := len(cands) / max
 	if step == 0 {
 		step = 1
